@@ -29,7 +29,7 @@ func init() {
 		RealParts:  []string{"Network.LoadSensors / ActivateSteps / ForwardSteps / RecursiveSteps, Network.FastNetworkSolver translation, FastModularNetworkSolver ForwardSteps / RecursiveSteps / Relax", "scalar activation functions as trusted primitives of the reference"},
 		StubParts:  []string{"fitness assignment"},
 		Assumes:    []string{"tolerance 1e-9 for summation order; input vectors that put a step / sign neuron within 1e-9 of its discontinuity are skipped and counted", "networks with a neuron that no sensor reaches, or with a cycle, are outside the property and skipped (counted)"},
-		ProbeNames: []string{"probe.net.hidden", "probe.net.bias_link_matters", "probe.net.depth>=3", "probe.net.skip_connection", "probe.net.multi_output", "probe.net.nonsigmoid_activation", "skipped.cyclic", "skipped.unreachable_neuron"},
+		ProbeNames: []string{"probe.net.hidden", "probe.net.bias_link_matters", "probe.net.depth>=3", "probe.net.skip_connection", "probe.net.multi_output", "probe.net.nonsigmoid_activation", "probe.reused_after_flush", "skipped.cyclic", "skipped.unreachable_neuron"},
 	})
 	Register(&Scenario{
 		Prop: "C13", Run: scenarioC13, QuickRuns: 1500, ThoroughRuns: 40000, Level: "exploration",
@@ -283,6 +283,10 @@ func scenarioC12(c *RunCtx) {
 		}
 		nin := ref.NumPlainInputs()
 		nvec := t.Range("vectors", 1, 3)
+		// one standard network and one fast solver are kept for the whole series of input vectors and flushed between
+		// evaluations, the way an organism is evaluated repeatedly; each evaluation uses a tape-chosen mode
+		var keptStd *network.Network
+		var keptFast network.Solver
 		for v := 0; v < nvec; v++ {
 			sub := t.Sub("inputs")
 			in := make([]float64, nin)
@@ -404,6 +408,66 @@ func scenarioC12(c *RunCtx) {
 				if i, ok := outsClose(got, want); !ok {
 					c.Fail("wrong-output:"+r.name, "%s gives %v, evaluating each neuron once in topological order gives %v (output %d differs)\n%s", r.name, got, want, i, ctx())
 				}
+			}
+			// the kept instances: Flush, load, one mode
+			if keptStd == nil {
+				c.Lib("Genesis", func() {
+					if keptStd, err = GenesisCopy(g); err == nil {
+						keptFast, err = keptStd.FastNetworkSolver()
+					}
+				})
+				if err != nil {
+					c.Fail("solver-error:construct", "cannot build the solvers of a feed-forward network: %v\n%s", err, ctx())
+				}
+			}
+			stdMode, fastMode := t.Draw("kept.std.mode", 2), t.Draw("kept.fast.mode", 3)
+			if !info.HasHidden {
+				stdMode = 0
+			}
+			var gotStd, gotFast []float64
+			var errStd, errFast error
+			c.Lib("kept instances", func() {
+				if v > 0 {
+					if _, errStd = keptStd.Flush(); errStd != nil {
+						return
+					}
+					if _, errFast = keptFast.Flush(); errFast != nil {
+						return
+					}
+				}
+				if errStd = keptStd.LoadSensors(in); errStd == nil {
+					if stdMode == 0 {
+						_, errStd = keptStd.ForwardSteps(L + extra)
+					} else {
+						_, errStd = keptStd.RecursiveSteps()
+					}
+					gotStd = keptStd.ReadOutputs()
+				}
+				if errFast = keptFast.LoadSensors(in); errFast == nil {
+					switch fastMode {
+					case 0:
+						_, errFast = keptFast.ForwardSteps(L + extra)
+					case 1:
+						_, errFast = keptFast.RecursiveSteps()
+					case 2:
+						_, errFast = keptFast.Relax(L+2+extra, math.SmallestNonzeroFloat64)
+					}
+					gotFast = keptFast.ReadOutputs()
+				}
+			})
+			stdName := []string{"Network.ForwardSteps", "Network.RecursiveSteps"}[stdMode]
+			fastName := []string{"fast ForwardSteps", "fast RecursiveSteps", "fast Relax"}[fastMode]
+			if errStd != nil || errFast != nil {
+				c.Fail("solver-error:reused-instance", "evaluation %d on a flushed, reused instance returned an error (%s: %v, %s: %v)\n%s", v, stdName, errStd, fastName, errFast, ctx())
+			}
+			if i, ok := outsClose(gotStd, want); !ok {
+				c.Fail("wrong-output:reused:"+stdName, "evaluation %d on the same, flushed network: %s gives %v, evaluating each neuron once in topological order gives %v (output %d differs)\n%s", v, stdName, gotStd, want, i, ctx())
+			}
+			if i, ok := outsClose(gotFast, want); !ok {
+				c.Fail("wrong-output:reused:"+fastName, "evaluation %d on the same, flushed fast solver: %s gives %v, evaluating each neuron once in topological order gives %v (output %d differs)\n%s", v, fastName, gotFast, want, i, ctx())
+			}
+			if v > 0 {
+				c.Count("probe.reused_after_flush")
 			}
 			h := Mix(rec.ShapeHash(), sub.U64())
 			c.State(h)
